@@ -135,13 +135,21 @@ class FakeDriver:
         self.import_failures_left = 0     # -1 = persistent
         self.index_fail = False
         self.force_shape = None
+        self.replay_shapes = None
+        self.replay_pos = 0
+        self.shapes_used = []
 
     def next_shape(self):
         if self.force_shape:
             return self.force_shape
+        if self.replay_shapes is not None:
+            # second execution of the same call with other values: the driver answers exactly as it did the first time
+            self.replay_pos += 1
+            return self.replay_shapes[self.replay_pos - 1] if self.replay_pos <= len(self.replay_shapes) else 'populated'
         r = self.rng.random()
         s = 'populated' if r < 0.7 else 'empty' if r < 0.85 else 'none'
         self.stats.inc('faults.driver.result_%s' % s)
+        self.shapes_used.append(s)
         return s
 
     def verify_connectivity(self):
@@ -462,6 +470,7 @@ class W4World(World):
                     self.remember(vv)
         self.drv.history = []
         self.drv.force_shape = s.get('shape')
+        self.drv.shapes_used = []
         call = s['call']
         outcome = 'ok'
         try:
@@ -474,6 +483,8 @@ class W4World(World):
             outcome = 'exc:' + type(e).__name__
         self.stats.inc('ops.%s.%s' % (call, 'ok' if outcome == 'ok' else 'raised'))
         self.check_history(call)
+        if not self.pending and s['op'] != 'import':
+            self.check_data_independence(s, outcome)
         self.mutations += 1
         h = h8(canon([q for q, _ in self.drv.history]))
         self.state_hashes.add(h)
@@ -501,6 +512,64 @@ class W4World(World):
                 self.flag(oracle, {'call': call, 'symptom': sym if oracle != 'stmt_value_not_in_text' else sym},
                           '%s -> %s' % (call, detail))
                 break
+
+    VALUE_FIELDS = ('node', 'a', 'b', 'z', 'pval', 'gid', 'gid2', 'ntype', 'name')
+
+    def check_data_independence(self, s, outcome):
+        """The same call once more with every caller-supplied VALUE replaced by a harmless one (identifiers - classes,
+        relations, property names - unchanged) and the driver answering exactly as before: the statements may differ
+        only inside their string literals and parameters, and the call ends the same way (C19: the text depends only
+        on identifiers, never on stored values)."""
+        first = [(q, p) for q, p in self.drv.history]
+        shapes = list(self.drv.shapes_used)
+
+        def benign(v):
+            if not isinstance(v, str):
+                return v
+            m = re.search(r'MK\d+x', v)
+            return (m.group(0) + 'v') if m else v
+        s2 = dict(s)
+        for k in self.VALUE_FIELDS:
+            if k in s2:
+                s2[k] = benign(s2[k])
+        if isinstance(s2.get('props'), dict):
+            s2['props'] = {k: benign(v) for k, v in s2['props'].items()}
+        if isinstance(s2.get('hops'), list):
+            s2['hops'] = [benign(v) for v in s2['hops']]
+        if canon(s2) == canon(s):
+            return
+        self.drv.history = []
+        self.drv.replay_shapes, self.drv.replay_pos = shapes, 0
+        out2 = 'ok'
+        try:
+            self.invoke(s2)
+        except (SkipStep, HarnessError):
+            raise
+        except Exception as e:
+            out2 = 'exc:' + type(e).__name__
+        finally:
+            self.drv.replay_shapes = None
+        second = self.drv.history
+        self.drv.history = first
+        self.stats.inc('probe.data_independence_pairs')
+
+        def skel(q):
+            outside, lits, p = scan(q)
+            return re.sub(r'\s+', ' ', outside) if not p else None
+        a = [skel(q) for q, _ in first]
+        b = [skel(q) for q, _ in second]
+        call = s['call']
+        if outcome != out2:
+            self.flag('stmt_value_not_in_text', {'call': call, 'symptom': 'outcome_depends_on_value'},
+                      '%s ends with %s for the caller\'s values and with %s for harmless ones (same identifiers, same '
+                      'driver answers): %s' % (call, outcome, out2, canon({k: s.get(k) for k in self.VALUE_FIELDS + ('props',)
+                                                                          if k in s})[:400]))
+        elif None not in a and a != b:
+            i = next((i for i in range(min(len(a), len(b))) if a[i] != b[i]), min(len(a), len(b)))
+            self.flag('stmt_value_not_in_text', {'call': call, 'symptom': 'text_depends_on_value'},
+                      '%s: statement %d differs outside its literals between the caller\'s values and harmless ones: '
+                      '%r vs %r' % (call, i, (first[i][0] if i < len(first) else None),
+                                    (second[i][0] if i < len(second) else None)))
 
     def invoke(self, s):
         from fim.graph.slices.neo4j_asm import Neo4jASM
